@@ -32,6 +32,20 @@ characters, hence at the very end) and with validate=True.  (e) sources with
 filler), so that read-from-file and native-animation payloads sit just below / at / above a
 power of two.
 
+Round 6: (f) CONCURRENT renders of one instance: `conc` = {"threads": [per-thread overrides of
+the render arguments (alpha, override, compress, mix, z, via ...)], "sched": schedule}.  The
+instance is rendered by that many threads AT THE SAME TIME under a deterministic scheduler
+(parksched.ParkSched; no sleeps): a render can be parked at the GATES it passes —
+"data>" / "data<" (entry / exit of _get_render_data), "save>" / "save<" (entry / exit of
+PIL.Image.Image.save: the encoding of the image or of one line), "read" / "truncate" / "tell" /
+"getvalue" (the methods of the io.BytesIO objects the style module creates: raw pixel buffer, encode
+buffer).  A schedule is a list of grants [thread, gate or "*" (any) or null (to its end), n]: the
+thread runs until it passes such a gate for the n-th time.  "sched": "each" parks thread 0 after
+EVERY gate event k of its render in turn (their number is counted on a solo render), lets thread 1
+render completely, then thread 0 finishes; "sched": ["pairs", [[k, j], ...]] parks thread 0 after
+event k, thread 1 after its event j, then both finish (0 first).  EVERY thread's output is decoded
+and compared, on its own, with the pixels of a fresh copy of the source for ITS arguments.
+
 Everything reported is an integer, a bool, a short string or a list of those."""
 import implenv
 from implenv import tests
@@ -43,11 +57,13 @@ import re
 import shutil
 import sys
 import tempfile
+import threading
 import warnings
 import zlib
 
 from PIL import Image
 
+import parksched
 from term_image.image import ITerm2Image, KittyImage, Size
 from term_image.image.kitty import ControlData, Transmission
 
@@ -384,10 +400,16 @@ class Env:
         self.b_term = tuple(chg["term"]) if chg.get("term") else None
         self.b_ratio = chg.get("ratio")
         self.a_term = tuple(case["term_size"]) if case.get("term_size") else None
-        self.n = 0
-        self.inside = 0
-        self.trace = []  # [function, inside _render_image?, value]
+        self._per = {}  # per thread: [reads so far, depth inside _render_image, trace]
         self.saved = None
+
+    # the counters of the CALLING thread (renders of several threads are counted apart)
+    def _mine(self):
+        return self._per.setdefault(threading.get_ident(), [0, 0, []])
+
+    n = property(lambda self: self._mine()[0], lambda self, v: self._mine().__setitem__(0, v))
+    inside = property(lambda self: self._mine()[1], lambda self, v: self._mine().__setitem__(1, v))
+    trace = property(lambda self: self._mine()[2])  # [function, inside _render_image?, value]
 
     def _read(self, name, a_value, b_value):
         changed = self.at is not None and self.n >= self.at and b_value is not None
@@ -515,6 +537,10 @@ def run_render_case(case, idx, env, cls):
     shared = keep if animated else None  # the PIL object shared by the instance, its renders and its owner
     ctx = {"path": path, "opener": opener, "keep": keep, "animated": animated, "n_frames": n_frames,
            "readable": bool(readable), "shared": shared, "init": image.tell()}
+    if case.get("conc"):
+        if animated:
+            image.seek(case.get("seek", 0) % n_frames)
+        return run_conc(image, case, env, ctx)
     ops = case.get("ops")
     if ops is None:  # a single render (of frame `seek` of an animated source)
         ops = ([["seek", case.get("seek", 0)]] if animated else []) + [["render"]]
@@ -573,9 +599,9 @@ def run_iterator(image, case, k):
     return entry
 
 
-def render_once(image, case, env, ctx):
-    path, opener, keep = ctx["path"], ctx["opener"], ctx["keep"]
-    animated, readable = ctx["animated"], ctx["readable"]
+def pre_render(image, case, ctx):
+    """what is known before a render starts -> (res, fresh copy of the source on the current frame, tell)"""
+    opener, animated, readable = ctx["opener"], ctx["animated"], ctx["readable"]
     res = {}
     tell = image.tell()  # the frame the IMAGE says is current
     shared = ctx["shared"]
@@ -589,6 +615,11 @@ def render_once(image, case, env, ctx):
     res["animated"] = animated
     res["orig"] = list(image.original_size)
     res["readable"] = readable
+    return res, fresh, tell
+
+
+def render_once(image, case, env, ctx):
+    res, fresh, tell = pre_render(image, case, ctx)
     size_before = image.size
     pinned = []
     bound_render_image = image._render_image
@@ -604,6 +635,7 @@ def render_once(image, case, env, ctx):
 
     image._render_image = render_image
     env.n, env.trace[:] = 0, []  # count the reads of the render only (not of the construction)
+    out = alpha = None
     try:
         out, alpha = render(image, case)
         res["raised"] = ""
@@ -612,10 +644,17 @@ def render_once(image, case, env, ctx):
         res["raised_msg"] = str(e)[:120]
     finally:
         del image._render_image
-    res["n_reads"] = len(env.trace)
-    res["reads"] = [t[0] + ("*" if t[1] else "") for t in env.trace]
-    res["reads_in"] = [t[2] for t in env.trace if t[1] and t[0] == "cs"]
-    res["other_in"] = sum(1 for t in env.trace if t[1] and t[0] != "cs")
+    return analyse(res, out, alpha, image, case, list(env.trace), ctx, fresh, tell, size_before, pinned)
+
+
+def analyse(res, out, alpha, image, case, trace, ctx, fresh, tell, size_before, pinned):
+    """decode one render output and compare it with the source; `trace`: the environment reads of
+    that render"""
+    path, opener, readable = ctx["path"], ctx["opener"], ctx["readable"]
+    res["n_reads"] = len(trace)
+    res["reads"] = [t[0] + ("*" if t[1] else "") for t in trace]
+    res["reads_in"] = [t[2] for t in trace if t[1] and t[0] == "cs"]
+    res["other_in"] = sum(1 for t in trace if t[1] and t[0] != "cs")
     res["rsize"] = pinned[0] if pinned else list(image.rendered_size)
     if res["raised"]:
         return res
@@ -739,6 +778,175 @@ def render_once(image, case, env, ctx):
         res["pix_error"] = repr(e)[:200]
     res["pix"] = bool(pix)
     return res
+
+
+# ------------------------------------------------------------ concurrent renders
+
+
+class Gates:
+    """Pass-through wrappers around what a render calls; each announces a GATE to the scheduler
+    in force (`self.ps`; none: plain pass-through, only counted)."""
+
+    def __init__(self):
+        self.ps = None
+        self.count = 0
+        gates = self
+
+        class GBytesIO(io.BytesIO):
+            def read(self, *a):
+                r = super().read(*a)
+                gates.hit("read")
+                return r
+
+            def truncate(self, *a):
+                r = super().truncate(*a)
+                gates.hit("truncate")
+                return r
+
+            def tell(self):
+                r = super().tell()
+                gates.hit("tell")
+                return r
+
+            def getvalue(self):
+                gates.hit("getvalue")
+                return super().getvalue()
+
+        class IO:  # what the style modules reach as `io`
+            BytesIO = GBytesIO
+            StringIO = io.StringIO
+
+        self.io = IO
+        self.saved = []
+
+    def hit(self, name):
+        self.count += 1
+        if self.ps is not None:
+            self.ps.gate(name)
+
+    def install(self, image):
+        import term_image.image.iterm2 as m_iterm2
+        import term_image.image.kitty as m_kitty
+
+        for mod in (m_iterm2, m_kitty):
+            self.saved.append((mod, "io", mod.io))
+            mod.io = self.io
+        pil_save = Image.Image.save
+        gates = self
+
+        def save(im, fp, *a, **k):
+            # only the encodings a render makes (into a buffer of the style module)
+            mine = isinstance(fp, self.io.BytesIO)
+            mine and gates.hit("save>")
+            try:
+                return pil_save(im, fp, *a, **k)
+            finally:
+                mine and gates.hit("save<")
+
+        self.saved.append((Image.Image, "save", pil_save))
+        Image.Image.save = save
+        bound = image._get_render_data
+
+        def get_render_data(*a, **k):
+            gates.hit("data>")
+            try:
+                return bound(*a, **k)
+            finally:
+                gates.hit("data<")
+
+        image._get_render_data = get_render_data
+        self.image = image
+
+    def remove(self):
+        for obj, name, val in reversed(self.saved):
+            setattr(obj, name, val)
+        del self.image._get_render_data
+
+
+def conc_schedules(spec, n_events):
+    if spec == "each":
+        return [[[0, "*", k], [1, None, 1], [0, None, 1]] for k in range(1, n_events + 1)]
+    if isinstance(spec, list) and spec and spec[0] == "pairs":
+        return [[[0, "*", k], [1, "*", j], [0, None, 1], [1, None, 1]] for k, j in spec[1]]
+    return [spec]
+
+
+def run_conc(image, case, env, ctx):
+    """-> {"threads": [result per thread]} for a concrete schedule, {"each": [[schedule, [results]], ...],
+    "n_events": N} for an enumerated one"""
+    conc = case["conc"]
+    thr_cases = [{**case, **o} for o in conc["threads"]]
+    gates = Gates()
+    gates.install(image)
+    try:
+        spec = conc["sched"]
+        if spec == "count" or spec == "each" or (isinstance(spec, list) and spec and spec[0] == "pairs"):
+            gates.count = 0
+            render(image, thr_cases[0])  # a solo render: the number of gate events of thread 0's render
+            n_events = gates.count
+            if spec == "count":
+                return {"n_events": n_events}
+            return {"n_events": n_events,
+                    "each": [[sch, conc_once(image, thr_cases, env, ctx, gates, sch)] for sch in conc_schedules(spec, n_events)]}
+        return {"threads": conc_once(image, thr_cases, env, ctx, gates, spec)}
+    finally:
+        gates.remove()
+
+
+def conc_once(image, thr_cases, env, ctx, gates, sched):
+    n = len(thr_cases)
+    pres = [pre_render(image, c, ctx) for c in thr_cases]
+    size_before = image.size
+    pinned = [[] for _ in range(n)]
+    traces = [None] * n
+    bound_render_image = image._render_image
+    ps = None
+
+    def render_image(*a, **k):
+        pinned[ps.current()].append(list(image.rendered_size))
+        env.inside += 1
+        try:
+            return bound_render_image(*a, **k)
+        finally:
+            env.inside -= 1
+
+    def body(i):
+        def run():
+            env.n, env.trace[:] = 0, []
+            try:
+                return render(image, thr_cases[i])
+            finally:
+                traces[i] = list(env.trace)
+        return run
+
+    image._render_image = render_image
+    ps = parksched.ParkSched([body(i) for i in range(n)])
+    gates.ps = ps
+    stuck = ""
+    try:
+        for g in sched:
+            ps.grant(g[0], g[1], g[2] if len(g) > 2 else 1)
+        ps.finish()
+    except parksched.Stuck as e:
+        stuck = str(e)
+    finally:
+        gates.ps = None
+        del image._render_image
+    out = []
+    for i in range(n):
+        res, fresh, tell = pres[i]
+        kind, val = ps.results[i] or ("exc", RuntimeError("the render did not end: " + stuck))
+        text = alpha = None
+        if kind == "ok":
+            text, alpha = val
+            res["raised"] = ""
+        else:
+            res["raised"] = type(val).__name__
+            res["raised_msg"] = str(val)[:120]
+        res["fr"].update(hist=[])
+        res["gate_log"] = [f"{t}:{p}" for t, p in ps.log][:80]
+        out.append(analyse(res, text, alpha, image, thr_cases[i], traces[i] or [], ctx, fresh, tell, size_before, pinned[i]))
+    return out
 
 
 def main():
